@@ -350,6 +350,11 @@ theorem C13_concat_valid (ds : List Compact.Compact) (h : ∀ d ∈ ds, Valid d)
     (concat ds).P = (ds.map (·.P)).flatten ∧ (concat ds).S = (ds.map (·.S)).flatten :=
   ⟨validOff_zero.mp (validOff_concatGo ds 0 0 h), concatGo_lengths ds 0 0⟩
 
+/-- the model of lists with mixed `Collocations/group` order (outside the claim: C13's concat
+statement presupposes one group order per list) reduces to `concat` when no member is flipped -/
+theorem C13_concatMixed_uniform (ds : List Compact.Compact) :
+    concatMixed (ds.map (·, false)) = concat ds := concatMixedGo_false ds 0 0
+
 /-! ## non-vacuity -/
 
 /-- one-to-many (primary 0 ↦ secondaries 0, 2, 1) and many-to-one (secondary 1 ↤ primaries
@@ -387,4 +392,4 @@ example : (stat [some 1, none, some 3]).mean = some 2 ∧ (stat [some 1, none, s
 assert_axioms C13_compact_valid C13_compact_total C13_compact_expand C13_rows_injective C13_matrix_spec
   C13_collapse_spec C13_collapse_spec_second_reference C13_collapse_ok_inv C13_collapse_ok_ref_used
   C13_partners_swap C13_mean_var
-  C13_expand_spec C13_expand_error C13_concat_expand C13_concat_valid
+  C13_expand_spec C13_expand_error C13_concat_expand C13_concat_valid C13_concatMixed_uniform
